@@ -78,7 +78,7 @@ def main():
         "hooks": {
             "guard": "prometheus_verif",
             "enable": "RUSTFLAGS='--cfg prometheus_verif' (set by tools/run_check.py for the hooked harness build in target/hook); cfg declared in /repo/build.rs",
-            "baseline_off_cmd": "cd /repo && cargo test --workspace --no-fail-fast --offline",
+            "baseline_off_cmd": "cd /repo && cargo nextest run --workspace --no-fail-fast --test-threads 8 --offline",
             "source_commits": ["297c5ee", "6f7b4aa"],
             "add_only": True,
         },
@@ -90,7 +90,7 @@ def main():
             {"name": "orchestrator", "path": "tools/run_check.py", "serves_properties": sorted(CHECKS), "kind_free_text": "builds the harness from /repo's working tree, shards engine processes, merges parts into evidence, filters known findings, decides exit code"},
         ],
         "checks": checks,
-        "notes": "Exit codes: 0 held / 1 VIOLATION / 2 INCONCLUSIVE (harness does not build against the edited tree, watchdog, no coverage). VERIF_SEED seeds every PRNG; VERIF_JOBS caps parallelism. known_findings.json lists one known finding (C14) and the fixed defects.",
+        "notes": "baseline_off_cmd mirrors BASELINE.json (nextest, one process per test): under plain `cargo test` the unchanged snapshot's registry::tests::test_default_registry is flaky because it compares two gathers of the process-global default registry while other tests register into it. Exit codes: 0 held / 1 VIOLATION / 2 INCONCLUSIVE (harness does not build against the edited tree, watchdog, no coverage). VERIF_SEED seeds every PRNG; VERIF_JOBS caps parallelism. known_findings.json lists one known finding (C14) and the fixed defects.",
         "not_applicable": NOT_APPLICABLE,
     }
     json.dump(m, open(os.path.join(ROOT, "MANIFEST.json"), "w"), indent=1)
